@@ -3,6 +3,7 @@
 // independent Timbuk reader.
 #include "world.hh"
 #include "profiles.hh"
+#include "gen.hh"
 
 #include <vata/vata.hh>
 #include <vata/bdd_bu_tree_aut.hh>
@@ -123,6 +124,22 @@ void op_assign(const Step& s) {
 	if (bu) *c.h[i].bu = *c.h[j].bu; else *c.h[i].td = *c.h[j].td;
 	c.h[i].model = c.h[j].model; c.h[i].origin = c.h[j].origin; count(c_handles_shared);
 	after_step(s, "bdd_assign");
+}
+// an object with a history (see et_twist): a near relative of the handle's value is loaded aside and copy-assigned over the same object
+void op_twist(const Step& s) {
+	bool bu = s.arg(1) & 1; size_t i = HI(s, 0, bu); Client& c = CL(s); Rng r(uint64_t(s.arg(2)) + 47);
+	gen::Pool pool; for (auto& y : c.h[i].model.symbols()) pool.push_back(mdl::Sym(y.first, y.second));
+	if (pool.empty() || c.h[i].model.rules.size() > 200) throw Skip();
+	TA rel = gen::derive_ta(r, pool, c.h[i].model, (s.arg(3) & 1) ? 3 : 2); if (s.arg(3) & 2) rel = gen::derive_ta(r, pool, rel, 3);
+	VATA::Parsing::TimbukParser parser; VATA::AutBase::StateDict dict; std::string text = mdl::to_timbuk(rel, "q");
+	std::map<long, long> m;
+	api_begin();
+	if (bu) { BU fresh; fresh.LoadFromString(parser, text, dict); *c.h[i].bu = fresh; }
+	else { TD fresh; fresh.LoadFromString(parser, text, dict); *c.h[i].td = fresh; }
+	api_end();
+	for (long q : rel.states()) { auto it = dict.FindFwd("q" + std::to_string(q)); if (it != dict.EndFwd()) m[q] = long(it->second); }
+	c.h[i].model = mdl::rename(rel, m); c.h[i].origin = ++g_origin;
+	after_step(s, "bdd_twist");
 }
 void op_move_assign(const Step& s) {
 	bool bu = s.arg(2) & 1; size_t i = HI(s, 0, bu), j = HI(s, 1, bu); Client& c = CL(s); if (i == j) throw Skip();
@@ -391,7 +408,7 @@ struct BG {
 			switch (r.below(8)) {
 				case 7: out.push_back(gen::mk(c, "bdd_final", {h, bu, long(r.below(1000))})); break;
 				case 0: case 1: case 2: out.push_back(gen::mk(c, "bdd_copy", {h, bu})); ++n; break;
-				case 3: out.push_back(gen::mk(c, "bdd_assign", {h, any(bu), bu})); break;
+				case 3: if (r.chance(1, 3)) out.push_back(gen::mk(c, "bdd_twist", {h, bu, long(r.below(100000)), long(r.below(4))})); else out.push_back(gen::mk(c, "bdd_assign", {h, any(bu), bu})); break;
 				case 4: if (n > 2) { int g = any(bu); if (g != h) { out.push_back(gen::mk(c, "bdd_move_assign", {h, g, bu})); --n; } } break;
 				case 5: out.push_back(gen::mk(c, "bdd_move_ctor", {h, bu})); break;
 				default: if (n > 2) { out.push_back(gen::mk(c, "bdd_destroy", {h, bu})); --n; } break;
@@ -447,6 +464,12 @@ Plan plan_C07(Rng& r, const std::string&) {
 				if (bu) sel = r.below(100) < 88 ? (r.chance(1, 2) ? 0 : 5) : long(r.below(N_SEL));
 				else sel = r.below(100) < 90 ? 4 + long(r.below(4)) : long(r.below(N_SEL));
 				g.out.push_back(gen::mk(c, "bdd_incl", {bu ? abu : atd, bu ? bbu : btd, sel, bu, long(bu && r.chance(1, 10) ? 2 : r.below(2))}));
+			}
+			if (r.chance(1, 5)) {
+				// one operand OBJECT gets another value (a near relative is copy-assigned over it) and the question is asked again
+				bool bu = r.chance(1, 2); long sel = bu ? (r.chance(1, 2) ? 0 : 5) : 4 + long(r.below(4));
+				g.out.push_back(gen::mk(c, "bdd_twist", {r.chance(1, 2) ? (bu ? abu : atd) : (bu ? bbu : btd), bu, long(r.below(100000)), long(r.below(4))}));
+				g.out.push_back(gen::mk(c, "bdd_incl", {bu ? abu : atd, bu ? bbu : btd, sel, bu, long(r.below(2))}));
 			}
 		}
 		progs.push_back(g.out);
@@ -521,7 +544,7 @@ Plan plan_C08(Rng& r, const std::string&) {
 }
 
 void register_bdd_ops() {
-	register_op("bdd_load", op_load); register_op("bdd_copy", op_copy); register_op("bdd_assign", op_assign);
+	register_op("bdd_load", op_load); register_op("bdd_copy", op_copy); register_op("bdd_assign", op_assign); register_op("bdd_twist", op_twist);
 	register_op("bdd_move_assign", op_move_assign); register_op("bdd_move_ctor", op_move_ctor); register_op("bdd_destroy", op_destroy); register_op("bdd_final", op_final); register_op("bdd_dump", op_dump);
 	register_op("bdd_binary", op_binary); register_op("bdd_trim", op_trim); register_op("bdd_to_td", op_to_td); register_op("bdd_reindex", op_reindex);
 	register_op("bdd_incl", op_incl);
